@@ -16,8 +16,12 @@ and the strongest fact that holds is emitted, under <out-dir> (default lean/Habu
     theorem o<k>_sem : (for all stores in which the gate, if present, is affirmative) the line's tree never runs
                        to a value  := checkLine_never_sound o<k>     (resp. ... not after reading the gate)
 
-in C09_<year>.lean (soundness of `checkLine`: Proofs/GateLemmas.lean; solver corollaries `gate_blocks_form`,
-`gate_blocks_line`, `gate_read_blocks` there).
+together with one `theorem f<j> : formOk year<Y> "<class>" <inst> = true` per form (the class's naming assertions,
+needed to know which class `mkCat` resolves the name to; expensive, hence stated once per form).  The
+kernel-evaluated obligations are packed into part modules C09_<year>_<k>.lean of about 45 s each (they build in
+parallel); C09_<year>.lean imports them and states what each obligation means (`o<k>_sem`).  Soundness of
+`checkLine`: Proofs/GateLemmas.lean; solver corollaries `gate_blocks_form`, `gate_blocks_line`, `gate_read_blocks`
+there.
 
 EXPECTED obligations.  tools/c09_expected.json (committed; written by `--rebaseline` on the reviewed tree) lists the
 obligations that held when the gate list was reviewed.  When one of them does not hold on the current tree
@@ -295,6 +299,8 @@ def abs_expr(g, env, e):
         return a_bind(g, E(e[1]), lambda _n: to_unk(g, E(e[3])) if e[2] else a_pure(UNK))
     if k == 'thresholdOf':
         return a_bind(g, E(e[1]), lambda _f: a_bind(g, E(e[2]), lambda _n: to_unk(g, E(e[4])) if e[3] else a_pure(UNK)))
+    if k == 'loadedForm':
+        return a_bind(g, E(e[1]), lambda _f: a_pure(known(['none'])))
     if k == 'instance':
         return a_pure(UNK)
     if k == 'notImpl':
@@ -406,11 +412,12 @@ def abs_body(g, line):
 
 # ---------------------------------------------------------------------------------------- checkLine
 
-def find_class(ir, cname):
-    for c in ir['classes']:
-        if c['name'] == cname:
-            return c
-    return None
+def name_ok(s):
+    return '.' not in s
+
+
+def class_names_ok(c):
+    return name_ok(c['name']) and all(name_ok(l['name']) for l in c['lines']) and all(name_ok(n) for n, _k in c['inputs'])
 
 
 def accepts(rule, inst):
@@ -419,22 +426,61 @@ def accepts(rule, inst):
     return inst is not None and inst in rule[1]
 
 
+def split_on(ch, s):
+    return s.split(ch)
+
+
+def name_and_instance(f):
+    parts = split_on(':', f)
+    if len(parts) == 1:
+        return parts[0], None
+    if len(parts) == 2:
+        return parts[0], parts[1]
+    return None
+
+
+def form_map_lookup(ir, cn):
+    for cand in reversed(ir['classes']):          # YearDecl.formMap: the LAST class of that name wins
+        if cand['name'] == cn:
+            return cand
+    return None
+
+
+def resolve_loose(ir, f):
+    """Gates.resolveLoose: (class, parsed instance) or None"""
+    if not name_ok(f):
+        return None
+    ni = name_and_instance(f)
+    if ni is None:
+        return None
+    c = form_map_lookup(ir, ni[0])
+    if c is None or not accepts(c['instRule'], ni[1]):
+        return None
+    return c, ni[1]
+
+
+def form_ok(ir, cname, inst):
+    """Gates.formOk"""
+    fname = cname if inst is None else f'{cname}:{inst}'
+    ni = name_and_instance(fname)
+    if ni is None:
+        return False
+    c = form_map_lookup(ir, ni[0])
+    return c is not None and class_names_ok(c)
+
+
 def names_ok(cname, inst, lname):
     fname = cname if inst is None else f'{cname}:{inst}'
-    full = fname + '.' + lname
-    if full.split('.') != [fname, lname]:
-        return False
-    want = [cname] if inst is None else [cname, inst]
-    return fname.split(':') == want
+    return split_on('.', fname + '.' + lname) == [fname, lname]
 
 
 def check_line(ir, cname, inst, lname, gate, spec, mode, need_required):
     """mirror of Gates.checkLine; returns (bool, info)"""
-    c = find_class(ir, cname)
-    if c is None:
-        return False, 'no such class'
-    if not accepts(c['instRule'], inst):
-        return False, 'instance not accepted'
+    fname = cname if inst is None else f'{cname}:{inst}'
+    res = resolve_loose(ir, fname)
+    if res is None:
+        return False, 'the form does not resolve'
+    c, inst2 = res
     line = None
     for l in c['lines']:
         if l['name'] == lname:
@@ -446,7 +492,7 @@ def check_line(ir, cname, inst, lname, gate, spec, mode, need_required):
         return False, 'names do not split'
     if need_required and not line['required']:
         return False, 'line is not required'
-    outs = abs_body(G(cname, inst, gate, spec), line)
+    outs = abs_body(G(c['name'], inst2, gate, spec), line)
     if mode == 'never':
         if outs:
             return False, f'{len(outs)} returning path(s), e.g. result {show_aval(outs[0][0])}'
@@ -604,6 +650,42 @@ def gate_status(entry):
     return '+'.join(st) if st else 'analysis_inconclusive'
 
 
+PART_BUDGET = 45.0        # seconds of kernel time aimed at per generated part module
+
+
+def form_cost(ir, cname):
+    c = form_map_lookup(ir, cname)
+    return 1.0 + 0.2 * (len(c['lines']) + len(c['inputs'])) if c else 1.0
+
+
+def pack(items, budget=PART_BUDGET):
+    """items: [(cost, text lines)] -> list of bins (first-fit decreasing, deterministic)"""
+    order = sorted(range(len(items)), key=lambda k: (-items[k][0], k))
+    bins, loads = [], []
+    for k in order:
+        cost = items[k][0]
+        for b in range(len(bins)):
+            if loads[b] + cost <= budget:
+                bins[b].append(k)
+                loads[b] += cost
+                break
+        else:
+            bins.append([k])
+            loads.append(cost)
+    return [sorted(b) for b in bins]
+
+
+def line_stmt(year, f):
+    return (f'checkLine year{year} {lean_str(f["class"])} {lean_inst(f["inst"])} {lean_str(f["line"])} '
+            f'{lean_str(f["gate"])} {spec_lean(tuple(f["spec"]))} .{f["mode"]} {"true" if f["required"] else "false"}')
+
+
+def describe(f):
+    return (f'gate {f["gate"]} {spec_lean(tuple(f["spec"]))}: line {f["class"]}{":" + f["inst"] if f["inst"] else ""}.{f["line"]}'
+            f' ({"required" if f["required"] else "optional"}) '
+            f'{"never returns" if f["mode"] == "never" else "never returns after reading the gate"}')
+
+
 def generate(years, out_dir, rebaseline=False, quiet=False):
     reviewed = c09_gates.load_reviewed()
     expected = {}
@@ -620,84 +702,113 @@ def generate(years, out_dir, rebaseline=False, quiet=False):
             ({'gate': f['gate'], 'spec': f['spec'], 'class': f['class'], 'inst': f['inst'], 'line': f['line'],
               'mode': f['mode'], 'required': f['required']} for f in facts), key=fact_key)
         exp = new_expected[str(year)] if rebaseline or str(year) not in expected else expected[str(year)]
-        lines = [
-            '/- GENERATED by tools/gen_c09.py from the habutax working tree and tools/c09_gates.json — do not edit. -/',
-            'import HabuVerif.Proofs.GateLemmas',
-            f'import HabuVerif.Gen.Catalogue{year}',
-            'set_option autoImplicit false',
-            'set_option maxRecDepth 100000',
-            f'namespace HabuVerif.Gen.C09_{year}',
-            'open HabuVerif HabuVerif.Dsl HabuVerif.Gates HabuVerif.Gen',
-            '']
+        items = []           # (cost, [lean lines])  -- kernel-evaluated obligations, packed into part modules
+        sems = []            # lean lines of the main module
         obl = []
+        # ---- line obligations: the baseline first, then facts that hold but are not in the baseline
+        todo = [(e, 'baseline') for e in exp]
+        seen = {fact_key(e) for e in exp}
+        todo += [(f, 'extra') for f in sorted(facts, key=fact_key) if fact_key(f) not in seen]
         k = 0
-        seen = set()
-        for e in exp:
+        forms_needed = {}
+        pending = []
+        for e, origin in todo:
             k += 1
-            key = fact_key(e)
-            seen.add(key)
+            oid = f'o{k}'
             spec = tuple(e['spec'])
             try:
                 ok, info = check_line(ir, e['class'], e['inst'], e['line'], e['gate'], spec, e['mode'], e['required'])
             except (TooBig, RecursionError):
-                # cannot happen for a baseline fact unless the line grew: report, do not emit a theorem
                 ok, info = None, 'too many paths (not analysed)'
-            stmt = (f'checkLine year{year} {lean_str(e["class"])} {lean_inst(e["inst"])} {lean_str(e["line"])} '
-                    f'{lean_str(e["gate"])} {spec_lean(spec)} .{e["mode"]} {"true" if e["required"] else "false"}')
-            what = (f'gate {e["gate"]} {spec_lean(spec)}: line {e["class"]}{":" + e["inst"] if e["inst"] else ""}.{e["line"]}'
-                    f' ({"required" if e["required"] else "optional"}) '
-                    f'{"never returns" if e["mode"] == "never" else "never returns after reading the gate"}')
-            rec = {'id': f'o{k}', 'year': year, 'gate': e['gate'], 'class': e['class'], 'inst': e['inst'], 'line': e['line'],
-                   'mode': e['mode'], 'required': e['required'], 'info': info}
+            rec = {'id': oid, 'year': year, 'gate': e['gate'], 'class': e['class'], 'inst': e['inst'], 'line': e['line'],
+                   'mode': e['mode'], 'required': e['required'], 'info': info,
+                   'status': ('proved' if origin == 'baseline' else 'extra') if ok else 'FAILED'}
+            text = []
             if ok:
-                lines.append(f'/-- {comment_safe(what)} -/')
-                lines.append(f'theorem o{k} : {stmt} = true := by decide +kernel')
-                sem = (f'(mkCat year{year}).sem (lineName {lean_str(e["class"])} {lean_inst(e["inst"])} {lean_str(e["line"])})')
-                hyp = (f'∀ (vs : String → Option Val) (is : String → InpRes Val) (fs : String → Bool),\n'
-                       f'    (∀ v, is {lean_str(e["gate"])} = .ok v → GateSpec.sat {spec_lean(spec)} v = true) → ∀ x,\n')
-                if e['mode'] == 'never':
-                    lines.append(f'theorem o{k}_sem : {hyp}    run vs is fs ({sem}) ≠ .val x :=\n  checkLine_never_sound o{k}')
-                else:
-                    lines.append(f'theorem o{k}_sem : {hyp}    run vs is fs ({sem}) = .val x →\n'
-                                 f'    readsOn vs is fs {lean_str(e["gate"])} ({sem}) = false :=\n  checkLine_afterRead_sound o{k}')
-                rec['status'] = 'proved'
+                text.append(f'/-- {comment_safe(describe(e))}{"" if origin == "baseline" else " (not in the baseline)"} -/')
+                text.append(f'theorem {oid} : {line_stmt(year, e)} = true := by decide +kernel')
+                forms_needed.setdefault((e['class'], e['inst']), []).append((oid, e))
             elif ok is False:
-                lines.append(f'-- FAILED-OBLIGATION o{k} {comment_safe(what)}: {comment_safe(info)}')
-                lines.append(f'theorem o{k} : {stmt} = false := by decide +kernel')
-                rec['status'] = 'FAILED'
-                now = by_key.get(key)
+                text.append(f'-- FAILED-OBLIGATION {oid} {comment_safe(describe(e))}: {comment_safe(info)}')
+                text.append(f'theorem {oid} : {line_stmt(year, e)} = false := by decide +kernel')
+            else:
+                text.append(f'-- FAILED-OBLIGATION {oid} {comment_safe(describe(e))}: {comment_safe(info)} (no theorem emitted)')
+            if not ok:
+                now = by_key.get(fact_key(e))
                 rec['now'] = now['mode'] if now else None
                 failed.append(dict(rec, witness=info))
-            else:
-                lines.append(f'-- FAILED-OBLIGATION o{k} {comment_safe(what)}: {comment_safe(info)} (no theorem emitted)')
-                rec['status'] = 'FAILED'
-                failed.append(dict(rec, witness=info))
-            lines.append('')
+                if now and now['mode'] != e['mode']:
+                    pending.append(now)        # the weaker fact that still holds
+            text.append('')
+            items.append((1.0, text))
             obl.append(rec)
-            # a weaker fact that still holds for a failed `never`
-            now = by_key.get(key)
-            if not ok and now and now['mode'] != e['mode']:
-                k += 1
-                stmt2 = (f'checkLine year{year} {lean_str(now["class"])} {lean_inst(now["inst"])} {lean_str(now["line"])} '
-                         f'{lean_str(now["gate"])} {spec_lean(tuple(now["spec"]))} .{now["mode"]} {"true" if now["required"] else "false"}')
-                lines.append(f'theorem o{k} : {stmt2} = true := by decide +kernel')
-                lines.append('')
-                obl.append({'id': f'o{k}', 'year': year, 'gate': now['gate'], 'class': now['class'], 'inst': now['inst'],
-                            'line': now['line'], 'mode': now['mode'], 'required': now['required'], 'status': 'extra'})
-        for f in sorted(facts, key=fact_key):
-            if fact_key(f) in seen:
-                continue
+        for now in pending:
             k += 1
-            stmt = (f'checkLine year{year} {lean_str(f["class"])} {lean_inst(f["inst"])} {lean_str(f["line"])} '
-                    f'{lean_str(f["gate"])} {spec_lean(tuple(f["spec"]))} .{f["mode"]} {"true" if f["required"] else "false"}')
-            lines.append(f'/-- (not in the baseline) gate {comment_safe(f["gate"])}: line {f["class"]}.{f["line"]} {f["mode"]} -/')
-            lines.append(f'theorem o{k} : {stmt} = true := by decide +kernel')
-            lines.append('')
-            obl.append({'id': f'o{k}', 'year': year, 'gate': f['gate'], 'class': f['class'], 'inst': f['inst'],
-                        'line': f['line'], 'mode': f['mode'], 'required': f['required'], 'status': 'extra'})
-        lines.append(f'end HabuVerif.Gen.C09_{year}')
-        lines.append('')
-        written[f'C09_{year}.lean'] = '\n'.join(lines)
+            oid = f'o{k}'
+            items.append((1.0, [f'/-- {comment_safe(describe(now))} (weaker than the failed baseline fact) -/',
+                                f'theorem {oid} : {line_stmt(year, now)} = true := by decide +kernel', '']))
+            forms_needed.setdefault((now['class'], now['inst']), []).append((oid, now))
+            obl.append({'id': oid, 'year': year, 'gate': now['gate'], 'class': now['class'], 'inst': now['inst'],
+                        'line': now['line'], 'mode': now['mode'], 'required': now['required'], 'status': 'extra'})
+        # ---- form obligations
+        form_ids = {}
+        j = 0
+        for (cname, inst) in sorted(forms_needed, key=lambda t: (t[0], t[1] or '')):
+            j += 1
+            fid = f'f{j}'
+            ok = form_ok(ir, cname, inst)
+            stmt = f'formOk year{year} {lean_str(cname)} {lean_inst(inst)}'
+            what = f'form {cname}{":" + inst if inst else ""}: the class it resolves to passes its naming assertions'
+            if ok:
+                items.append((form_cost(ir, cname), [f'/-- {comment_safe(what)} -/',
+                                                     f'theorem {fid} : {stmt} = true := by decide +kernel', '']))
+                form_ids[(cname, inst)] = fid
+            else:
+                items.append((form_cost(ir, cname), [f'-- FAILED-OBLIGATION {fid} {comment_safe(what)}',
+                                                     f'theorem {fid} : {stmt} = false := by decide +kernel', '']))
+                failed.append({'id': fid, 'year': year, 'class': cname, 'inst': inst, 'status': 'FAILED',
+                               'witness': 'a class, line or input name contains a dot'})
+            obl.append({'id': fid, 'year': year, 'class': cname, 'inst': inst, 'status': 'proved' if ok else 'FAILED',
+                        'kind': 'form'})
+        # ---- part modules
+        header = ['/- GENERATED by tools/gen_c09.py from the habutax working tree and tools/c09_gates.json — do not edit. -/',
+                  'import HabuVerif.Spec.Gates', f'import HabuVerif.Gen.Catalogue{year}',
+                  'set_option autoImplicit false', 'set_option maxRecDepth 100000',
+                  f'namespace HabuVerif.Gen.C09_{year}', 'open HabuVerif HabuVerif.Dsl HabuVerif.Gates HabuVerif.Gen', '']
+        parts = pack(items)
+        part_names = []
+        for pn, idxs in enumerate(parts):
+            name = f'C09_{year}_{pn}'
+            part_names.append(name)
+            body = list(header)
+            for i in idxs:
+                body.extend(items[i][1])
+            body.append(f'end HabuVerif.Gen.C09_{year}')
+            body.append('')
+            written[name + '.lean'] = '\n'.join(body)
+        # ---- main module: what the obligations mean
+        main = ['/- GENERATED by tools/gen_c09.py from the habutax working tree and tools/c09_gates.json — do not edit. -/',
+                'import HabuVerif.Proofs.GateLemmas'] + [f'import HabuVerif.Gen.{n}' for n in part_names] + [
+                'set_option autoImplicit false', f'namespace HabuVerif.Gen.C09_{year}',
+                'open HabuVerif HabuVerif.Dsl HabuVerif.Gates HabuVerif.Gen', '']
+        for (cname, inst), olist in sorted(forms_needed.items(), key=lambda t: (t[0][0], t[0][1] or '')):
+            fid = form_ids.get((cname, inst))
+            if fid is None:
+                continue
+            for oid, e in olist:
+                sem = f'(mkCat year{year}).sem (lineName {lean_str(e["class"])} {lean_inst(e["inst"])} {lean_str(e["line"])})'
+                hyp = (f'∀ (vs : String → Option Val) (is : String → InpRes Val) (fs : String → Bool),\n'
+                       f'    (∀ v, is {lean_str(e["gate"])} = .ok v → GateSpec.sat {spec_lean(tuple(e["spec"]))} v = true) → ∀ x,\n')
+                main.append(f'/-- {comment_safe(describe(e))} -/')
+                if e['mode'] == 'never':
+                    main.append(f'theorem {oid}_sem : {hyp}    run vs is fs ({sem}) ≠ .val x :=\n  checkLine_never_sound {fid} {oid}')
+                else:
+                    main.append(f'theorem {oid}_sem : {hyp}    run vs is fs ({sem}) = .val x →\n'
+                                f'    readsOn vs is fs {lean_str(e["gate"])} ({sem}) = false :=\n  checkLine_afterRead_sound {fid} {oid}')
+                main.append('')
+        main.append(f'end HabuVerif.Gen.C09_{year}')
+        main.append('')
+        written[f'C09_{year}.lean'] = '\n'.join(main)
         per_gate = []
         for g in gates:
             per_gate.append({'gate': g['gate'], 'input': g['input'], 'declares': g['declares'], 'status': gate_status(g),
@@ -708,6 +819,7 @@ def generate(years, out_dir, rebaseline=False, quiet=False):
         for g in per_gate:
             counts[g['status']] = counts.get(g['status'], 0) + 1
         obligations[str(year)] = {
+            'modules': [f'HabuVerif.Gen.C09_{year}'] + [f'HabuVerif.Gen.{n}' for n in part_names],
             'theorems': obl, 'gates': per_gate, 'gate_status_counts': counts,
             'proved': sum(1 for o in obl if o['status'] == 'proved'), 'failed': sum(1 for o in obl if o['status'] == 'FAILED'),
             'extra': sum(1 for o in obl if o['status'] == 'extra'),
@@ -715,6 +827,10 @@ def generate(years, out_dir, rebaseline=False, quiet=False):
     written['c09_obligations.json'] = json.dumps(obligations, indent=1, sort_keys=True) + '\n'
     written['c09_failed.json'] = json.dumps(failed, indent=1, sort_keys=True) + '\n'
     os.makedirs(out_dir, exist_ok=True)
+    # stale part modules of an earlier run (their number depends on the tree)
+    for fn in sorted(os.listdir(out_dir)):
+        if re.fullmatch(r'C09_(\d{4})(_\d+)?\.lean', fn) and fn not in written and int(fn[4:8]) in years:
+            os.remove(os.path.join(out_dir, fn))
     for name, text in written.items():
         path = os.path.join(out_dir, name)
         try:
@@ -732,9 +848,11 @@ def generate(years, out_dir, rebaseline=False, quiet=False):
     if not quiet:
         for y in years:
             o = obligations[str(y)]
-            print(f'{y}: {o["proved"]} proved, {o["failed"]} FAILED, {o["extra"]} extra; gates: {o["gate_status_counts"]}')
+            print(f'{y}: {o["proved"]} proved, {o["failed"]} FAILED, {o["extra"]} extra, {len(o["modules"])} modules; '
+                  f'gates: {o["gate_status_counts"]}')
         for f in failed:
-            print(f'FAILED-OBLIGATION {f["year"]} {f["id"]} gate {f["gate"]} line {f["class"]}.{f["line"]} ({f["mode"]}): {f["witness"]}')
+            print(f'FAILED-OBLIGATION {f["year"]} {f["id"]} ' + (f'gate {f["gate"]} line {f["class"]}.{f["line"]} ({f["mode"]})'
+                  if 'gate' in f else f'form {f["class"]}') + f': {f["witness"]}')
     return obligations, failed
 
 
